@@ -24,19 +24,19 @@ open Heimdall.Pipeline.Witness (failing completing cfg cfgAuthzOk redirect200 pa
 /-- **Nothing reaches the upstream unless the pipeline completed** (no side condition): a request is forwarded
 only by the proxy, only if a rule or the default rule applied, its whole effective pipeline completed, and that
 rule names an upstream. -/
-theorem c01_forwarded_only_if_completed (ep : EntryPoint) (cfg : Cfg) (up : Nat) (found : Option Rule)
-    (h : (answer ep cfg up found).forwarded = true) :
+theorem c01_forwarded_only_if_completed (ep : EntryPoint) (cfg : Cfg) (view : ReqView) (up : Nat) (found : Option Rule)
+    (h : (answer ep cfg view up found).forwarded = true) :
     ep = .proxy ∧ ∃ r, found = some r ∧ Completed r ∧ r.hasBackend = true := by
   cases found with
   | none => rw [answer_none, errorAnswer_not_forwarded] at h; cases h
   | some r =>
     cases hc : completedB r with
     | false =>
-      rcases answer_failed ep cfg up r hc with ⟨e, _, he⟩ | ⟨_, he⟩
+      rcases answer_failed ep cfg view up r hc with ⟨e, _, he⟩ | ⟨_, he⟩
       · rw [he, errorAnswer_not_forwarded] at h; cases h
       · rw [he] at h; cases h
     | true =>
-      rw [answer_completed ep cfg up r hc] at h
+      rw [answer_completed ep cfg view up r hc] at h
       cases ep with
       | decision => cases h
       | envoy => cases h
@@ -46,12 +46,12 @@ theorem c01_forwarded_only_if_completed (ep : EntryPoint) (cfg : Cfg) (up : Nat)
         | true => exact ⟨rfl, r, rfl, (completedB_iff r).mp hc, hb⟩
 
 /-- the hypothesis is satisfiable: the proxy forwards the request of a completed pipeline (upstream says 204) -/
-example : (answer .proxy cfg 204 (some completing)).forwarded = true := by decide
+example : (answer .proxy cfg {} 204 (some completing)).forwarded = true := by decide
 
 /-- **Envoy gets an OK check response only for a completed pipeline** (no side condition: the gRPC translator
 cannot produce `OK`, whatever status overrides are configured, and a panic fails the RPC). -/
-theorem c01_envoy_ok_only_if_completed (cfg : Cfg) (up : Nat) (found : Option Rule)
-    (h : (answer .envoy cfg up found).success = true) : ∃ r, found = some r ∧ Completed r := by
+theorem c01_envoy_ok_only_if_completed (cfg : Cfg) (view : ReqView) (up : Nat) (found : Option Rule)
+    (h : (answer .envoy cfg view up found).success = true) : ∃ r, found = some r ∧ Completed r := by
   cases found with
   | none =>
     rw [answer_none] at h
@@ -62,23 +62,23 @@ theorem c01_envoy_ok_only_if_completed (cfg : Cfg) (up : Nat) (found : Option Ru
     cases hc : completedB r with
     | true => exact ⟨r, rfl, (completedB_iff r).mp hc⟩
     | false =>
-      rcases answer_failed .envoy cfg up r hc with ⟨e, _, he⟩ | ⟨_, he⟩
+      rcases answer_failed .envoy cfg view up r hc with ⟨e, _, he⟩ | ⟨_, he⟩
       · rw [he] at h
         have := deny_not_success cfg e
         simp only [errorAnswer] at h
         rw [this] at h; cases h
       · rw [he] at h; cases h
 
-example : (answer .envoy cfgAuthzOk 200 (some completing)).success = true := by decide
+example : (answer .envoy cfgAuthzOk {} 200 (some completing)).success = true := by decide
 /-- even with `authorization_error.code: 200` Envoy is told to deny -/
-example : answer .envoy cfgAuthzOk 200 (some failing) = .checkDenied 9 303 := by decide
+example : answer .envoy cfgAuthzOk {} 200 (some failing) = .checkDenied 9 303 := by decide
 
 /-- **Soundness, all entry points.** A positive answer — a 2xx status of the decision or proxy service, an OK
 check response, forwarding to the upstream — is given only if a rule or the default rule applied and its whole
 effective pipeline completed. -/
-theorem c01_sound (ep : EntryPoint) (cfg : Cfg) (up : Nat) (found : Option Rule)
+theorem c01_sound (ep : EntryPoint) (cfg : Cfg) (view : ReqView) (up : Nat) (found : Option Rule)
     (hcfg : cfg.errorCodesNonSuccess = true) (hred : redirectsNonSuccess found = true)
-    (h : (answer ep cfg up found).positive = true) : ∃ r, found = some r ∧ Completed r := by
+    (h : (answer ep cfg view up found).positive = true) : ∃ r, found = some r ∧ Completed r := by
   cases found with
   | none =>
     rw [answer_none] at h
@@ -89,7 +89,7 @@ theorem c01_sound (ep : EntryPoint) (cfg : Cfg) (up : Nat) (found : Option Rule)
     cases hc : completedB r with
     | true => exact ⟨r, rfl, (completedB_iff r).mp hc⟩
     | false =>
-      rcases answer_failed ep cfg up r hc with ⟨e, hrec, he⟩ | ⟨_, he⟩
+      rcases answer_failed ep cfg view up r hc with ⟨e, hrec, he⟩ | ⟨_, he⟩
       · rw [he] at h
         simp only [Response.positive, errorAnswer_not_forwarded, Bool.or_false] at h
         rw [errorAnswer_not_success ep cfg hcfg e (recordable_redirect r hred e hrec)] at h
@@ -98,28 +98,28 @@ theorem c01_sound (ep : EntryPoint) (cfg : Cfg) (up : Nat) (found : Option Rule)
 
 /-- the side conditions hold for a non-trivial configuration and rule, with a positive answer … -/
 example : cfg.errorCodesNonSuccess = true ∧ redirectsNonSuccess (some completing) = true ∧
-    (answer .decision cfg 200 (some completing)).positive = true := by decide
+    (answer .decision cfg {} 200 (some completing)).positive = true := by decide
 /-- … and they cannot be dropped: with `authorization_error.code: 200`, or with a redirect handler configured
 with code 200, the decision service answers 200 for a pipeline that did not complete -/
 example : cfgAuthzOk.errorCodesNonSuccess = false ∧ ¬ Completed { failing with errorHandlers := [] } ∧
-    answer .decision cfgAuthzOk 200 (some { failing with errorHandlers := [] }) = .http 200 false :=
+    answer .decision cfgAuthzOk {} 200 (some { failing with errorHandlers := [] }) = .http 200 false :=
   ⟨by decide, fun h => absurd ((completedB_iff _).mpr h) (by decide), by decide⟩
 example : redirectsNonSuccess (some redirect200) = false ∧ ¬ Completed redirect200 ∧
-    answer .decision {} 200 (some redirect200) = .http 200 false :=
+    answer .decision {} {} 200 (some redirect200) = .http 200 false :=
   ⟨by decide, fun h => absurd ((completedB_iff _).mpr h) (by decide), by decide⟩
 
 /-- **In every other case the caller is refused**: no applicable rule, or a pipeline that did not complete
 (mechanism error, condition that cannot be evaluated, failing or non-applicable error handler, panic) — the
 response is not a success response and nothing reaches the upstream. -/
-theorem c01_failure_refused (ep : EntryPoint) (cfg : Cfg) (up : Nat) (found : Option Rule)
+theorem c01_failure_refused (ep : EntryPoint) (cfg : Cfg) (view : ReqView) (up : Nat) (found : Option Rule)
     (hcfg : cfg.errorCodesNonSuccess = true) (hred : redirectsNonSuccess found = true)
     (hfail : ∀ r, found = some r → ¬ Completed r) :
-    (answer ep cfg up found).success = false ∧ (answer ep cfg up found).forwarded = false := by
-  have hp : (answer ep cfg up found).positive = false := by
-    cases hpos : (answer ep cfg up found).positive with
+    (answer ep cfg view up found).success = false ∧ (answer ep cfg view up found).forwarded = false := by
+  have hp : (answer ep cfg view up found).positive = false := by
+    cases hpos : (answer ep cfg view up found).positive with
     | false => rfl
     | true =>
-      obtain ⟨r, hr, hc⟩ := c01_sound ep cfg up found hcfg hred hpos
+      obtain ⟨r, hr, hc⟩ := c01_sound ep cfg view up found hcfg hred hpos
       exact absurd hc (hfail r hr)
   simp only [Response.positive, Bool.or_eq_false_iff] at hp
   exact hp
@@ -128,10 +128,10 @@ theorem c01_failure_refused (ep : EntryPoint) (cfg : Cfg) (up : Nat) (found : Op
 example : (∀ r, (none : Option Rule) = some r → ¬ Completed r) := fun _ h => nomatch h
 example : ¬ Completed failing ∧ ¬ Completed panicking :=
   ⟨fun h => absurd ((completedB_iff _).mpr h) (by decide), fun h => absurd ((completedB_iff _).mpr h) (by decide)⟩
-example : answer .proxy cfg 200 (some failing) = .http 303 false ∧
-    answer .decision cfg 200 (some panicking) = .http 503 false ∧
-    answer .envoy cfg 200 (some panicking) = .rpcError 13 ∧
-    answer .decision cfg 200 none = .http 404 false := by decide
+example : answer .proxy cfg {} 200 (some failing) = .http 303 false ∧
+    answer .decision cfg {} 200 (some panicking) = .http 503 false ∧
+    answer .envoy cfg {} 200 (some panicking) = .rpcError 13 ∧
+    answer .decision cfg {} 200 none = .http 404 false := by decide
 
 /-- **Every error handler records a pipeline error before reporting success**: if the error pipeline returns
 `nil`, the request context carries a pipeline error — for every list of handlers, conditions, handler kinds and
@@ -147,25 +147,25 @@ example : runErrorHandlers failing.errorHandlers (.ofKind .authorization) {} =
 
 /-- **Finalisation is vetoed by a recorded pipeline error**, in all three request contexts: whatever backend the
 rule returned, the answer is the translation of the recorded error, nothing is forwarded, no OK response. -/
-theorem c01_finalize_vetoed (cfg : Cfg) (up : Nat) (backend : Bool) (c : Ctx) (e : Err)
+theorem c01_finalize_vetoed (cfg : Cfg) (view : ReqView) (up : Nat) (backend : Bool) (c : Ctx) (e : Err)
     (h : c.pipelineErr = some e) :
-    finalizeHTTP false cfg up backend c = errorAnswer .decision cfg e ∧
-    finalizeHTTP true cfg up backend c = errorAnswer .proxy cfg e ∧
-    finalizeEnvoy cfg c = errorAnswer .envoy cfg e := by
-  simp only [finalizeHTTP, finalizeEnvoy, h, errorAnswer, and_self]
+    (finalizeHTTP false cfg view up backend c).resp = errorAnswer .decision cfg e ∧
+    (finalizeHTTP true cfg view up backend c).resp = errorAnswer .proxy cfg e ∧
+    (finalizeEnvoy cfg c).resp = errorAnswer .envoy cfg e := by
+  simp only [finalizeHTTP, finalizeEnvoy, h, errorAnswer, Cfg.writeError, Cfg.denyReply, and_self]
 
 example : ({ pipelineErr := some (.ofKind .authorization) } : Ctx).pipelineErr = some (.ofKind .authorization) := rfl
 
 /-- **No error handler can turn a failed pipeline into a positive answer**: replace the error pipeline of a rule
 whose pipeline did not complete by *any* list of error handlers — the answer stays negative at every entry point. -/
-theorem c01_handler_cannot_rescue (ep : EntryPoint) (cfg : Cfg) (up : Nat) (r : Rule)
+theorem c01_handler_cannot_rescue (ep : EntryPoint) (cfg : Cfg) (view : ReqView) (up : Nat) (r : Rule)
     (ehs : List ErrorHandler) (hcfg : cfg.errorCodesNonSuccess = true)
     (hred : ehs.all (·.redirectNonSuccess) = true) (hfail : ¬ Completed r) :
-    (answer ep cfg up (some { r with errorHandlers := ehs })).positive = false := by
-  cases hpos : (answer ep cfg up (some { r with errorHandlers := ehs })).positive with
+    (answer ep cfg view up (some { r with errorHandlers := ehs })).positive = false := by
+  cases hpos : (answer ep cfg view up (some { r with errorHandlers := ehs })).positive with
   | false => rfl
   | true =>
-    obtain ⟨r', hr', hc⟩ := c01_sound ep cfg up (some { r with errorHandlers := ehs }) hcfg hred hpos
+    obtain ⟨r', hr', hc⟩ := c01_sound ep cfg view up (some { r with errorHandlers := ehs }) hcfg hred hpos
     cases hr'
     exact absurd hc hfail
 
@@ -176,34 +176,34 @@ example : cfg.errorCodesNonSuccess = true ∧
 
 /-- **Completeness** (the model does not refuse everything): a completed pipeline gets exactly the positive
 answer of its entry point — the accepted status, the OK check response, the upstream's answer. -/
-theorem c01_complete (ep : EntryPoint) (cfg : Cfg) (up : Nat) (r : Rule) (h : Completed r) :
-    answer ep cfg up (some r) =
+theorem c01_complete (ep : EntryPoint) (cfg : Cfg) (view : ReqView) (up : Nat) (r : Rule) (h : Completed r) :
+    answer ep cfg view up (some r) =
       match ep with
       | .decision => .http cfg.acceptedCode false
       | .proxy => if r.hasBackend then .http up true else .http (override cfg.internal 500) false
       | .envoy => .checkOk := by
-  rw [answer_completed ep cfg up r ((completedB_iff r).mpr h)]
+  rw [answer_completed ep cfg view up r ((completedB_iff r).mpr h)]
   cases ep <;> rfl
 
 example : Completed completing := (completedB_iff _).mp (by decide)
 
 /-- **Characterisation.** With a 2xx accepted status: the answer is positive *iff* a rule or the default rule
 applied, its pipeline completed and (proxy) it names an upstream. -/
-theorem c01_positive_iff (ep : EntryPoint) (cfg : Cfg) (up : Nat) (found : Option Rule)
+theorem c01_positive_iff (ep : EntryPoint) (cfg : Cfg) (view : ReqView) (up : Nat) (found : Option Rule)
     (hcfg : cfg.errorCodesNonSuccess = true) (hred : redirectsNonSuccess found = true)
     (hacc : isSuccessStatus cfg.acceptedCode = true) :
-    (answer ep cfg up found).positive = true ↔
+    (answer ep cfg view up found).positive = true ↔
       ∃ r, found = some r ∧ Completed r ∧ (ep = .proxy → r.hasBackend = true) := by
   constructor
   · intro h
-    obtain ⟨r, hr, hc⟩ := c01_sound ep cfg up found hcfg hred h
+    obtain ⟨r, hr, hc⟩ := c01_sound ep cfg view up found hcfg hred h
     refine ⟨r, hr, hc, ?_⟩
     rintro rfl
     cases hb : r.hasBackend with
     | true => rfl
     | false =>
       subst hr
-      rw [c01_complete .proxy cfg up r hc] at h
+      rw [c01_complete .proxy cfg view up r hc] at h
       simp only [hb, Bool.false_eq_true, if_false, Response.positive, Response.forwarded, Bool.or_false] at h
       have := httpStatus_nonSuccess cfg hcfg (.ofKind .configuration) (fun _ hx => by cases hx)
       have hcl : cfg.httpStatus (classify (.ofKind .configuration)) = override cfg.internal 500 := rfl
@@ -211,7 +211,7 @@ theorem c01_positive_iff (ep : EntryPoint) (cfg : Cfg) (up : Nat) (found : Optio
       simp only [Response.success] at h
       rw [this] at h; cases h
   · rintro ⟨r, rfl, hc, hb⟩
-    rw [c01_complete ep cfg up r hc]
+    rw [c01_complete ep cfg view up r hc]
     cases ep with
     | decision => simp only [Response.positive, Response.success, hacc, Bool.true_or]
     | envoy => rfl
@@ -220,15 +220,34 @@ theorem c01_positive_iff (ep : EntryPoint) (cfg : Cfg) (up : Nat) (found : Optio
 example : cfg.errorCodesNonSuccess = true ∧ redirectsNonSuccess (some failing) = true ∧
     isSuccessStatus cfg.acceptedCode = true := by decide
 
+/-- **Verbosity and content negotiation never change the verdict.** `respond.verbose` and the client's `Accept`
+header (acceptable, unacceptable or malformed) influence only whether an error body is sent: status, forwarding,
+check response — hence success and the positive/negative verdict — are the same for every value of both, at every
+entry point, for every rule and outcome vector. -/
+theorem c01_verdict_independent_of_verbosity (ep : EntryPoint) (cfg : Cfg) (verbose : Bool)
+    (view view' : ReqView) (up : Nat) (found : Option Rule) :
+    answer ep { cfg with verbose := verbose } view' up found = answer ep cfg view up found ∧
+    (answer ep { cfg with verbose := verbose } view' up found).positive = (answer ep cfg view up found).positive ∧
+    (answer ep { cfg with verbose := verbose } view' up found).forwarded = (answer ep cfg view up found).forwarded := by
+  rw [answer_verbose ep cfg verbose view view' up found]
+  exact ⟨rfl, rfl, rfl⟩
+
+/-- the statement is not empty: verbosity and negotiation do change the reply (the body), only not the answer -/
+example : errorBody .decision { cfg with verbose := true } { negotiable := true } 200 (some panicking) = true ∧
+    errorBody .decision { cfg with verbose := true } { negotiable := false } 200 (some panicking) = false ∧
+    errorBody .decision cfg { negotiable := true } 200 (some panicking) = false ∧
+    answer .decision { cfg with verbose := true } { negotiable := false } 200 (some panicking) = .http 503 false := by
+  decide
+
 /-- **From the configuration to the answer**: whatever rule set and default rule were loaded (rejected ones never
 reach a request), a positive answer means that the matching rule or the default rule applied and its effective
 pipeline — own stages, or the default rule's where a stage is left empty — completed. -/
-theorem c01_sound_loaded (ep : EntryPoint) (cfg : Cfg) (up : Nat) (dflt rule : Option RuleDoc) (repo : Repo)
+theorem c01_sound_loaded (ep : EntryPoint) (cfg : Cfg) (view : ReqView) (up : Nat) (dflt rule : Option RuleDoc) (repo : Repo)
     (routeMatches : Bool) (_hload : load ep.mode dflt rule = some repo)
     (hcfg : cfg.errorCodesNonSuccess = true) (hred : redirectsNonSuccess (repo.find routeMatches) = true)
-    (h : (answer ep cfg up (repo.find routeMatches)).positive = true) :
+    (h : (answer ep cfg view up (repo.find routeMatches)).positive = true) :
     ∃ r, (repo.rule = some r ∧ routeMatches = true ∨ repo.dflt = some r) ∧ Completed r := by
-  obtain ⟨r, hr, hc⟩ := c01_sound ep cfg up _ hcfg hred h
+  obtain ⟨r, hr, hc⟩ := c01_sound ep cfg view up _ hcfg hred h
   refine ⟨r, ?_, hc⟩
   unfold Repo.find at hr
   cases routeMatches with
@@ -243,7 +262,7 @@ theorem c01_sound_loaded (ep : EntryPoint) (cfg : Cfg) (up : Nat) (dflt rule : O
 handler of the default rule; the proxy refuses to load a rule without upstream -/
 example : ∃ repo, load .decision (some dfltDoc) (some inheritingDoc) = some repo ∧
     (repo.find true).map (·.authenticators.map (·.id)) = some ["d-anon"] ∧
-    answer .decision cfg 200 (repo.find true) = .http 403 false := ⟨_, rfl, by decide, by decide⟩
+    answer .decision cfg {} 200 (repo.find true) = .http 403 false := ⟨_, rfl, by decide, by decide⟩
 example : load .proxy (some dfltDoc) (some { inheritingDoc with hasBackend := false }) = none := by decide
 example : load .decision (some { dfltDoc with auth := [] }) none = none := by decide
 
